@@ -144,7 +144,8 @@ func isCollection(t types.Type) bool {
 	}
 	switch qualifiedName(n) {
 	case "cosmossdk.io/collections.KeySet", "cosmossdk.io/collections.Item", "cosmossdk.io/collections.Map",
-		"cosmossdk.io/collections.IndexedMap", "cosmossdk.io/collections.Sequence", "cosmossdk.io/collections/indexes.Multi":
+		"cosmossdk.io/collections.IndexedMap", "cosmossdk.io/collections.Sequence", "cosmossdk.io/collections/indexes.Multi",
+		"cosmossdk.io/collections.KeySetIterator", "cosmossdk.io/collections.Iterator":
 		return true
 	}
 	return false
